@@ -200,4 +200,56 @@ def pickEncoderT (s : C19.EncSet) (c : C19.ColorFormat) (d : C19.Dithering) : Op
   dbgP (e.colors.contains c = true)                          -- encoder.rs:122–125 "Picked the wrong encoder"
   pure e
 
+/-! ## the table check -/
+
+/-- `PxOK` (Proofs/TrapEncSplit.lean) as a Boolean: what the loops use of a format's layout -/
+def pxOKb : PixelInfo → Bool
+  | .fixed bpp => decide (1 ≤ bpp ∧ bpp ≤ 16)
+  | .block bytes bw bh => decide (bytes ≤ 16 ∧ ((bh = 1 ∧ 2 ≤ bw ∧ bw ≤ 8) ∨ (bw = 4 ∧ bh = 4)))
+  | .biPlanar p1 p2 sx sy => decide (p1 ≤ 2 ∧ p2 ≤ 4 ∧ sx = 2 ∧ sy = 2)
+
+/-- one body that `Body.Matches` admits for an encoder of the table (`none`: the relation does not cover it) -/
+def defaultBody (ctor : C19.SetCtor) (px : PixelInfo) (e : C19.Enc) : Option Body :=
+  match ctor, px with
+  | .plain, .fixed bpp =>
+    match e.colors, e.kind with
+    | .single c, .plain => if (colorOf c).bpp = bpp then some .copy else none
+    | .ofPrec p, .plain =>
+      match [Unc.Channels.gray, .rgb, .rgba].find? (fun ch => TrapUnc.chanCount ch * precSize p = bpp) with
+      | some ch => some (.untyped (.convert ⟨ch, precSize p⟩ false))
+      | none => none
+    | .all, .plain => some (.universal bpp 1)
+    | .all, .fsDither => some (.dither bpp 1 1)
+    | _, _ => none
+  | .plain, .block bytes bw bh => if bh = 1 then some (.subsample bw bytes 1) else none
+  | .biPlanar, .biPlanar p1 p2 sx sy => if sx = 2 ∧ sy = 2 then some (.biPlanar p1 1 p2 1) else none
+  | .bc, .block bytes bw bh => if bw = 4 ∧ bh = 4 then some (.block bytes 0) else none
+  | _, _ => none
+
+/-- for one format, input colour and dithering option: the layout is one the loops handle, `pick_encoder` finds an
+encoder whose colour set contains the colour (neither the `expect` nor the `assert!` fires), and `Body.Matches`
+covers that encoder.  `Theorems/C15.lean` evaluates it on all 73 × 12 × 4 combinations. -/
+def dispatchCheck (f : C19.Format) (c : C19.ColorFormat) (d : C19.Dithering) : Bool :=
+  match C19.encoderSet f with
+  | none => true
+  | some s =>
+    pxOKb f.row.px &&
+      (match pickEncoderT s c d with
+       | none => false
+       | some e => (defaultBody s.ctor f.row.px e).isSome)
+
+/-- `Split.lean`'s support table for one format name: the split height is a `NonZeroU8` and a preferred fragment
+holds at most `2^48` pixels at every quality (so that the buffer of one fragment cannot exceed `isize::MAX` bytes)
+— or the whole image is one fragment -/
+def supportCheck (name : String) : Bool :=
+  match supportOf name with
+  | some (some s) =>
+    (match s.splitHeight with
+     | some sh => decide (0 < sh ∧ sh < 256)
+     | none => true) &&
+    (s.fragmentSize == .entireImage ||
+      [Quality.fast, .normal, .high, .unreasonable].all fun q =>
+        decide (max (s.fragmentSize.getPreferred q) 1 ≤ 281474976710656))
+  | _ => true
+
 end Dds.TrapEnc
